@@ -722,7 +722,9 @@ def check_asserts_and_indices(run, repo, eff, fr, fa):
                             ok = False
                             run.violation('C18-R6', ci.relpath, ci.name + '.execute', norm_stmt(ev.node, 100),
                                           'register index read may be %r (assert 0 <= n <= 15)' % (iv,))
-        probs = sorted({p for p in fa.problems if p[1] not in allowed_problem})
+        # the RRX-amount assertion of shift_c (whatever its spelling) is discharged jointly with the decode model above
+        # (rule `RRX amount`: no accepted word yields shift_t == RRX with shift_n != 1)
+        probs = sorted({p for p in fa.problems if not (p[0] == 'shift_c' and p[1].startswith('assert') and 'SRType.RRX' in p[1])})
         for fn, msg in probs:
             ok = False
             run.violation('C18-R6', ci.relpath, ci.name + '.execute', '%s: %s' % (fn, msg),
